@@ -34,6 +34,78 @@ def serializer_contracts():
                                              "meta_json_carries_the_metadata_and_runtime_data", "errors_json_is_the_error_list", "vars_json_is_the_variables")},
         doc={"vars_json_is_the_variables": "C09: 'vars.json holds the variables the run ended with'", "errors_json_is_the_error_list": "C09: 'errors.json holds the errors collected'"},
         assumptions=["json.dump(obj, f) writes obj to the file opened at that path (ghost effect log); the json text itself is external (bounded read-back in C09.bounded)"]))
+    # ---- the member manifest says what the run did
+    RR = "csvpath/managers/results/result_registrar.py"
+    MD = "csvpath/managers/metadata.py"
+    CF["ResultMetadata"] = {"_time": "val", "by_line": "optbool", "archive_name": "val", "named_results_name": "val", "run": "val", "run_home": "val", "instance_identity": "val",
+                            "instance_index": "val", "instance_home": "val", "file_fingerprints": "dict[str,val]", "files_expected": "val", "file_count": "val", "valid": "optbool",
+                            "completed": "optbool", "source_mode_preceding": "optbool", "preceding_instance_identity": "val", "actual_data_file": "val", "origin_data_file": "val",
+                            "named_file_name": "val", "transfers": "val", "error_count": "val", "index_instance": "val", "input_data_file": "val"}
+    CF["ResultRegistrar"] = {"g_manifest_path": "str", "result": "obj:Result", "g_completed": "bool", "g_expected": "val", "g_fingerprints": "val", "g_distributed": "int",
+                             "g_archive_name": "str"}
+
+    def iface(target, types, ensures=None, modifies=None, returns="none", why=""):
+        cs.append(Contract(target=target, interface=True, types=types, ensures=ensures or {}, modifies=modifies or [], returns=returns, class_fields=CF, assumptions=[why]))
+    iface(f"{MD}::Metadata.time_string", {}, returns="val", why="Metadata.time_string is the ISO form of the metadata's time")
+    iface(f"{MD}::Metadata.uuid_string", {}, returns="val", why="Metadata.uuid_string is the metadata's uuid as text")
+    iface("csvpath/managers/results/result_metadata.py::ResultMetadata.named_paths_uuid_string", {}, returns="val", why="the named-paths manifest's uuid as text")
+    iface(f"{RR}::ResultRegistrar.manifest_path", {}, returns="str", ensures={"p": "result == self.g_manifest_path"},
+          why="ResultRegistrar.manifest_path is <run dir>/<identity>/manifest.json (get_instance_dir: proved in this module)")
+    pay = "effect_payload('json.dump', 0)"
+    cs.append(Contract(
+        target=f"{RR}::ResultRegistrar.metadata_update", types={"mdata": "obj:ResultMetadata", "mdata._time": "val"}, requires=["mdata._time is not None"],
+        ensures={"one_manifest_written_at_the_members_manifest_path": "effects_count('json.dump') == 1 and effect_path('json.dump', 0) == self.g_manifest_path",
+                 "says_whether_the_member_is_valid_and_completed": f"same({pay}['valid'], mdata.valid) and same({pay}['completed'], mdata.completed)",
+                 "names_the_actual_and_the_origin_input": f"same({pay}['actual_data_file'], mdata.actual_data_file) and same({pay}['origin_data_file'], mdata.origin_data_file) and "
+                                                          f"same({pay}['named_file_name'], mdata.named_file_name)",
+                 "identifies_the_member_and_its_run": f"same({pay}['instance_identity'], mdata.instance_identity) and same({pay}['run_home'], mdata.run_home) and "
+                                                      f"same({pay}['instance_home'], mdata.instance_home) and same({pay}['named_results_name'], mdata.named_results_name)",
+                 "lists_the_files_and_their_fingerprints": f"same({pay}['file_fingerprints'], mdata.file_fingerprints) and same({pay}['files_expected'], mdata.files_expected) and "
+                                                           f"same({pay}['file_count'], mdata.file_count)",
+                 "serial_is_not_by_line": f"{pay}['serial'] == (mdata.by_line is False)"},
+        class_fields=CF, macros=MACROS, returns="none", native={"skip": True},
+        property_clauses={k: "C09" for k in ("one_manifest_written_at_the_members_manifest_path", "says_whether_the_member_is_valid_and_completed",
+                                             "identifies_the_member_and_its_run", "lists_the_files_and_their_fingerprints")} | {"names_the_actual_and_the_origin_input": "C09,C20"},
+        doc={"says_whether_the_member_is_valid_and_completed": "C09: 'each member's manifest.json says whether it was valid and completed'",
+             "names_the_actual_and_the_origin_input": "C20: 'its manifest names that data.csv as actual input'"}))
+    RES = "csvpath/managers/results/result.py"
+    CF["Result"] = {**CF.get("Result", {}), "_run_dir": "str", "_run_time": "val", "_paths_name": "val", "_file_name": "val", "run_index": "val", "_by_line": "val",
+                    "_errors": "list[val]", "_csvpath": "obj:CsvPath", "g_identity_or_index": "val", "g_preceding": "val", "g_instance_dir": "val", "g_actual": "val", "g_origin": "val"}
+    CF["CsvPath"].update({"g_completed": "bool", "g_transfers": "val"})
+    iface(f"{RR}::ResultRegistrar.manifest", {}, returns="val", why="ResultRegistrar.manifest reads the member manifest written so far (json.load)")
+    iface("csvpath/managers/results/result_metadata.py::ResultMetadata.from_manifest", {"m": "val"}, why="from_manifest copies time/uuid fields of the start record")
+    iface(f"{RR}::ResultRegistrar.archive_name", {}, returns="val", why="archive_name is the last path segment of the archive path")
+    iface(f"{RR}::ResultRegistrar.file_fingerprints", {}, returns="dict[str,val]", ensures={}, why="file_fingerprints hashes the files in the member's directory (bounded read-back)")
+    iface(f"{RR}::ResultRegistrar.all_expected_files", {}, returns="val", ensures={"f": "same(result, self.g_expected)"}, why="all_expected_files compares files-mode with the files present")
+    iface("csvpath/managers/registrar.py::Registrar.distribute_update", {"mdata": "val"}, modifies=["self.g_distributed"], ensures={"n": "self.g_distributed == old(self.g_distributed) + 1"},
+          why="distribute_update hands the metadata to metadata_update (own contract above) and the other listeners")
+    iface(f"{RES}::Result.identity_or_index", {}, returns="val", ensures={"v": "same(result, self.g_identity_or_index)"}, why="Result.identity_or_index")
+    iface(f"{RES}::Result.source_mode_preceding", {}, returns="val", ensures={"v": "same(result, self.g_preceding)"}, why="Result.source_mode_preceding is the csvpath's source-mode")
+    iface(f"{RES}::Result.instance_dir", {}, returns="val", ensures={"v": "same(result, self.g_instance_dir)"}, why="Result.instance_dir is run_dir/identity (get_instance_dir)")
+    iface(f"{RES}::Result.actual_data_file", {}, returns="val", ensures={"v": "same(result, self.g_actual)"}, why="Result.actual_data_file is the file the csvpath's scanner read")
+    iface(f"{RES}::Result.origin_data_file", {}, returns="val", ensures={"v": "same(result, self.g_origin)"}, why="Result.origin_data_file is the stored named file")
+    iface("csvpath/csvpath.py::CsvPath.completed", {}, returns="bool", ensures={"v": "result == self.g_completed"}, why="CsvPath.completed: the current line is the scan's last line (known finding C18)")
+    iface("csvpath/csvpath.py::CsvPath.transfers", {}, returns="val", ensures={"v": "same(result, self.g_transfers)"}, why="CsvPath.transfers is the transfer-mode setting")
+    iface(f"{RS}::ResultSerializer.get_run_dir_name_from_datetime", {"dt": "val"}, returns="val", why="formats the run's start time (C10)")
+    cs.append(Contract(
+        target=f"{RR}::ResultRegistrar.register_complete", variant="first_member_no_transfers",
+        types={"mdata": "obj:ResultMetadata", "self.result": "obj:Result", "self.result._csvpath": "obj:CsvPath", "self.result_serializer": "obj:ResultSerializer",
+               "self.result.run_index": "int", "self.result._errors": "list[val]"},
+        requires=["self.result.run_index == 0", "not truthy(self.result._csvpath.g_transfers)"],
+        modifies=["mdata.archive_name", "mdata.named_results_name", "mdata.run", "mdata.by_line", "mdata.source_mode_preceding", "mdata.run_home", "mdata.instance_home",
+                  "mdata.instance_identity", "mdata.index_instance", "mdata.named_file_name", "mdata.input_data_file", "mdata.file_fingerprints", "mdata.file_count",
+                  "mdata.error_count", "mdata.valid", "mdata.completed", "mdata.files_expected", "mdata.actual_data_file", "mdata.origin_data_file", "self.g_distributed"],
+        ensures={"verdict_is_the_csvpaths_verdict": "mdata.valid == self.result._csvpath._is_valid",
+                 "completed_is_the_csvpaths_completed": "mdata.completed == self.result._csvpath.g_completed",
+                 "error_count_is_the_number_of_errors_collected": "mdata.error_count == self.result.g_errors_count",
+                 "names_the_file_actually_read": "same(mdata.actual_data_file, self.result.g_actual) and same(mdata.origin_data_file, self.result.g_origin)",
+                 "identifies_the_member": "same(mdata.instance_identity, self.result.g_identity_or_index) and same(mdata.run_home, self.result._run_dir) and "
+                                          "same(mdata.instance_home, self.result.g_instance_dir)",
+                 "distributed_once": "self.g_distributed == old(self.g_distributed) + 1"},
+        inline=["CsvPath.is_valid", "ResultRegistrar.completed"], class_fields=CF, macros=MACROS, returns="none", native={"skip": True},
+        property_clauses={k: "C09" for k in ("verdict_is_the_csvpaths_verdict", "completed_is_the_csvpaths_completed", "error_count_is_the_number_of_errors_collected",
+                                             "identifies_the_member", "distributed_once")} | {"names_the_file_actually_read": "C09,C20"},
+        doc={"verdict_is_the_csvpaths_verdict": "C09: 'manifest.json ... valid'; C04: the archived verdict is the run's verdict"}))
     return cs
 
 
